@@ -41,7 +41,16 @@ def run_one(args) -> dict:
     tmp = tempfile.mkdtemp(prefix="sa_selftest_")
     try:
         shutil.copytree(os.path.join(REPO_ROOT, "cirkit"), os.path.join(tmp, "cirkit"), ignore=shutil.ignore_patterns("__pycache__"))
-        edits = mut["edits"] if "edits" in mut else [(mut["file"], mut["old"], mut["new"])]
+        if "patch" in mut:
+            import subprocess
+
+            pth = os.path.join(os.path.dirname(os.path.dirname(os.path.dirname(os.path.abspath(__file__)))), mut["patch"])
+            r = subprocess.run(["git", "apply", pth], cwd=tmp, capture_output=True, text=True)
+            if r.returncode != 0:
+                return {"id": mut["id"], "status": "skipped", "why": f"patch does not apply: {r.stderr.strip()[:120]}"}
+            edits = []
+        else:
+            edits = mut["edits"] if "edits" in mut else [(mut["file"], mut["old"], mut["new"])]
         for file, old, new in edits:
             path = os.path.join(tmp, file)
             src = open(path, encoding="utf-8").read()
